@@ -790,6 +790,7 @@ FILT_G = [v for v in ["a", "b", "c", "d", "e"] if v != "e" and v != "d"]
 SLICE_G = ["p", "q", "r", "s"][:2]
 NUMS_G = [n for n in [1, 2, 3, 4, 5, 6, 7] if n < 4]
 CONFIG.setdefault("TOOLCHAIN", {"CC": "gcc", "OPT": "-O1"})
+CONFIG.setdefault("TCLIST", ["-a", "-b"])
 
 def glist():
     return LIST_G
@@ -818,7 +819,7 @@ def mixed(extra = None):
 def observe():
     return "|".join([str(lit()), str(nested()), str(litd()), str(mixed()), str(LIST_G), str(NEST_G), str(DICT_G),
                      str(FILT_G), str(SLICE_G), str(NUMS_G), str(FILT_G + ["obs"]), str(SLICE_G + ["obs"]), str(NUMS_G + [0]),
-                     str(glist()), str(gnest()), str(gdict()), str(CONFIG.TOOLCHAIN)])
+                     str(glist()), str(gnest()), str(gdict()), str(CONFIG.TOOLCHAIN), str(CONFIG.BUILD_FILE_NAMES), str(CONFIG.TCLIST)])
 '''
 
 # mutation / re-ordering idioms; each is a few statements using a fresh variable prefix
@@ -870,6 +871,15 @@ C17_IDIOMS = [
     ('package(toolchain = {"opt": "MUT_%s"})',),
     ('package(toolchain = {"cc": "MUT_%s", "extra": "x"})',),
     ('x = CONFIG.TOOLCHAIN', 'x["OPT"] = "MUT_%s"'),
+    # list-valued configuration: one set by the subinclude, one that comes from the .plzconfig itself
+    ('x = CONFIG.TCLIST', 'x[0] = "MUT_%s"'),
+    ('x = sorted(CONFIG.TCLIST)',),
+    ('x = CONFIG.TCLIST + ["own"]', 'x[0] = "MUT_%s"'),
+    ('x = CONFIG.BUILD_FILE_NAMES', 'x[0] = "MUT_%s"'),
+    ('x = reversed(CONFIG.BUILD_FILE_NAMES)',),
+    ('x = CONFIG.BUILD_FILE_NAMES + ["own"]', 'x[0] = "MUT_%s"'),
+    ('CONFIG.TOOLCHAIN = {"CC": "MUT_%s"}',),
+    ('CONFIG["TCLIST"] = ["MUT_%s"]',),
 ]
 
 
